@@ -554,7 +554,9 @@ pub fn run<P: Property>(p: &mut P, cfg: &RunCfg) -> Outcome {
     let t0 = Instant::now();
     let kf = KnownFindings::load();
     let id = p.id();
-    let total = cfg.cases_override.unwrap_or_else(|| p.cases(cfg.tier));
+    // AXVERIF_CASES_DIV=n (drills only): a fraction of the tier's fixed work
+    let div = std::env::var("AXVERIF_CASES_DIV").ok().and_then(|s| s.parse::<u64>().ok()).filter(|d| *d > 0).unwrap_or(1);
+    let total = cfg.cases_override.unwrap_or_else(|| p.cases(cfg.tier) / div);
     let nw = cfg.workers.max(1);
     let mut failures: Vec<Failure> = vec![];
     let mut inconclusive: Vec<String> = vec![];
